@@ -73,9 +73,6 @@ Proof.
   intros o Ha. apply avail_iff. apply avail_iff in Ha as [Ha|(n & Ha)]; [left; auto|right; exists n; auto].
 Qed.
 
-Lemma ids_eqb_refl l : ids_eqb l l = true.
-Proof. induction l; cbn; [reflexivity|]. now rewrite N.eqb_refl. Qed.
-
 Lemma repo_ok_files g fs : repo_ok g fs -> forall n, pack_file_ok fs n = true.
 Proof. intros [F _]. apply files_ok_iff in F. tauto. Qed.
 
@@ -652,21 +649,6 @@ Qed.
 
 (* ---------- Prune and RepackObjects: the link to the C22 walker ---------- *)
 
-Lemma In_insert_n x y l : In x (insert_n y l) <-> x = y \/ In x l.
-Proof.
-  induction l as [|z l IH]; cbn [insert_n].
-  - cbn. intuition congruence.
-  - destruct (y =? z) eqn:E.
-    + apply N.eqb_eq in E. subst. cbn. intuition congruence.
-    + destruct (y <? z); cbn [In]; [intuition congruence|]. rewrite IH. intuition congruence.
-Qed.
-
-Lemma In_sort_n x l : In x (sort_n l) <-> In x l.
-Proof.
-  unfold sort_n. induction l as [|y l IH]; cbn [fold_right]; [tauto|].
-  rewrite In_insert_n, IH. cbn. intuition congruence.
-Qed.
-
 Lemma in_loose_ids fs o : In o (loose_ids fs) <-> loose_ok fs o = true.
 Proof.
   unfold loose_ids. rewrite filter_In, In_sort_n. split; [tauto|]. intro H. split; [|assumption].
@@ -687,7 +669,7 @@ Proof.
   - intros [H|(n & H)]; [now left|right].
     unfold in_pack in H. destruct (pack_objs fs n) as [os|] eqn:E; [|discriminate].
     apply andb_true_iff in H as [Hi Hm].
-    exists {| p_old := existsb (String.eqb n) op; p_promisor := pack_is_promisor fs n; p_objs := if idx_ok fs n os then os else [] |}.
+    exists {| p_name := (sort_n os, 0); p_old := existsb (String.eqb n) op; p_promisor := pack_is_promisor fs n; p_objs := if idx_ok fs n os then os else [] |}.
     split; [|cbn; now rewrite Hi].
     apply in_map_iff. exists (n, os). split; [reflexivity|].
     unfold pack_files. apply in_flat_map. exists n. split; [|rewrite E; now left].
